@@ -1,7 +1,7 @@
 (** C12: login throttling stops guessing; sessions are valid only until expiry
     or logout.  Only statements here; proofs live in Proofs/RateLimit.v and
     Proofs/Session.v. *)
-From AGH Require Import Base.Run Model.RateLimit Model.Session Model.SessionConc Model.LoginConc Proofs.RateLimit Proofs.Session Proofs.SessionConc Proofs.LoginConc Proofs.LimiterCfg Proofs.AuthPins Gen.AuthPins.
+From AGH Require Import Base.Run Model.RateLimit Model.Session Model.SessionConc Model.LoginConc Model.AuthHttp Model.AuthLife Model.LimiterLife Proofs.RateLimit Proofs.Session Proofs.SessionConc Proofs.LoginConc Proofs.AuthLife Proofs.LimiterLife Proofs.LimiterCfg Proofs.AuthPins Gen.AuthPins.
 From stdpp Require Import gmap.
 Local Open Scope Z_scope.
 
@@ -727,3 +727,43 @@ Example C12_logins_unserialised_refuted :
               snd (run_logins ex_conf ∅ (repeat ex_att 4)) = log_outs (l_log st)).
 Proof. exact unserialised_refuted. Qed.
 Print Assumptions C12_logins_unserialised_refuted.
+
+(** ** Round 8: the limiter over the life of the installation (Model/LimiterLife.v)
+
+    [InitAuth] keeps the limiter whatever user list it is given; a fresh
+    installation creates the Auth object without users and the wizard adds the
+    first account to the same object.  [limiter_life] follows the limiter of
+    the running process along C11's life histories (boot from no file / from a
+    file, wizard with every outcome, write, stop). *)
+Theorem C12_limiter_present_whenever_account_exists :
+  forall (ul : list account -> list account) (k : boot_code) (cfg : auth_cfg) (st0 : life) (ops : list op) (p : proc),
+  l_proc st0 = None ->
+  l_proc (fst (limiter_life ul k true cfg st0 ops)) = Some p ->
+  proc_auth_present p = true ->
+  snd (limiter_life ul k true cfg st0 ops) = mk_limiter cfg /\
+  ((0 < ac_attempts cfg)%Z -> (0 < ac_block_min cfg)%Z ->
+   exists c, snd (limiter_life ul k true cfg st0 ops) = Some c /\
+             rl_max c = Z.to_N (ac_attempts cfg) /\ rl_ttl c = minute_ns /\ rl_block c = block_dur cfg).
+Proof. exact limiter_present_whenever_account_exists. Qed.
+Print Assumptions C12_limiter_present_whenever_account_exists.
+
+(** The installation [limiter_life] walks through is C11's [run_ops]. *)
+Theorem C12_limiter_life_is_auth_life :
+  forall ul k cfg st ops lim keep,
+  fst (fold_left (lim_step ul k keep cfg) ops (st, lim)) = run_ops ul k st ops.
+Proof. exact limiter_life_fst. Qed.
+Print Assumptions C12_limiter_life_is_auth_life.
+
+(** Seeded change C12-O: an object created without users gets no limiter.
+    First start, wizard: an account exists, no limiter, four wrong passwords
+    all evaluated with auth_attempts 3; on the code the fourth is a 429. *)
+Example C12_no_limiter_when_started_empty_refuted :
+  let sl := limiter_life users_list ok_code false ex_cfg life0 ex_fresh in
+  let sl' := limiter_life users_list ok_code true ex_cfg life0 ex_fresh in
+  (exists p, l_proc (fst sl) = Some p /\ proc_users p = [ex_admin]) /\
+  snd sl = None /\
+  snd (run_logins_opt (snd sl) ∅ ex_guesses) = [L403; L403; L403; L403] /\
+  fst sl' = fst sl /\ snd sl' = mk_limiter ex_cfg /\
+  (exists lft, snd (run_logins_opt (snd sl') ∅ ex_guesses) = [L403; L403; L403; L429 lft]).
+Proof. exact no_limiter_when_started_empty_refuted. Qed.
+Print Assumptions C12_no_limiter_when_started_empty_refuted.
